@@ -201,30 +201,113 @@ def run(ctx):
 
     # ------------------------------------------------------------------ R3
     rv = nad.func("SurfaceHoppingDynamics._rescale_velocity_along_nac")
-    vd, s2, dE, KES = sp.symbols("vd s2 dE KES", real=True)
-    sg = sp.Function("sign")
-    env = {"v_dot_d": vd, "d2_by_m": s2, "dE": dE, "CONSTANTS.KINETIC_ENERGY_SCALE": KES}
-    f2 = torch_funcs()
-    f2["torch.sign"] = lambda a, n: sg(a[0])
-    dd = local_defs(rv)
-    for nm in ("rad", "sqrt_rad", "alpha"):
-        if nm not in dd or len(dd[nm]) != 1:
-            raise AnalysisError(f"_rescale_velocity_along_nac: {nm} not found")
-        env[nm] = to_sympy(dd[nm][0], env, f2)
-    alpha = env["alpha"]
-    resid = sp.expand(alpha * vd + sp.Rational(1, 2) * alpha ** 2 * s2 + dE / KES)
-    resid = sp.simplify(resid.subs(sg(vd) ** 2, 1))
-    ctx.check(resid == 0, "R3", nad, rv, "SurfaceHoppingDynamics._rescale_velocity_along_nac", "alpha",
-              "KES*(alpha v.d + 1/2 alpha^2 sum d^2/m) + dE == 0: total energy conserved exactly by the adjustment",
-              f"velocity adjustment does not conserve energy: residual {resid} (alpha = {alpha})")
-    want = (-vd + sg(vd) * sp.sqrt(vd ** 2 - 2 * (dE / KES) * s2)) / s2
-    ctx.check(sp.simplify(alpha - want) == 0, "R3", nad, rv, "SurfaceHoppingDynamics._rescale_velocity_along_nac", "alpha root",
-              "the root carrying sign(v.d) is taken (smaller of the two adjustments)", f"alpha = {alpha} is not the smaller root")
-    txt = {k: norm(v[0]).replace(" ", "") for k, v in dd.items() if len(v) == 1}
-    ctx.check(txt.get("d2_by_m") == "torch.sum(m_inv*torch.sum(dvec*dvec,dim=1))" and txt.get("v_dot_d") == "torch.sum(molecule.velocities[mol_index]*dvec)"
-              and txt.get("m_inv") == "molecule.mass_inverse[mol_index].squeeze(-1)", "R3", nad, rv, "SurfaceHoppingDynamics._rescale_velocity_along_nac", "v.d, sum d^2/m",
-              "v.d and sum d^2/m are built from this trajectory's velocities, coupling vector and inverse masses",
-              f"scalar products changed: d2_by_m={txt.get('d2_by_m')}, v_dot_d={txt.get('v_dot_d')}, m_inv={txt.get('m_inv')}")
+    # name-independent decision: the function body is re-read as equations over small symbolic arrays (2 atoms x 3 components) and
+    # the stored velocities are checked against the physics: (i) v' - v = alpha * d / m with ONE scalar alpha, (ii) the kinetic
+    # energy changes by exactly -dE, (iii) alpha is the root of smaller magnitude, (iv) the frustrated exit tests that root's radicand.
+    import random
+    import numpy as np
+    from ..tensorsym import TensorSym
+    params = [a.arg for a in rv.args.args]
+    if len(params) < 7:
+        raise AnalysisError("_rescale_velocity_along_nac: signature changed")
+    p_mol, p_dE, p_idx = params[4], params[5], params[6]
+    A, C = 2, 3
+    V = np.array([[sp.Symbol(f"v{i}{j}", real=True) for j in range(C)] for i in range(A)], dtype=object)
+    D = np.array([[sp.Symbol(f"d{i}{j}", real=True) for j in range(C)] for i in range(A)], dtype=object)
+    MI = np.array([[sp.Symbol(f"w{i}", positive=True)] for i in range(A)], dtype=object)
+    dEs, KES = sp.Symbol("dE", real=True), sp.Symbol("KES", positive=True)
+
+    def hook(n, ts):
+        if isinstance(n.slice, ast.Name) and n.slice.id == p_idx:
+            base = norm(n.value)
+            if base == f"{p_mol}.velocities":
+                return V
+            if base == f"{p_mol}.mass_inverse":
+                return MI
+            if isinstance(n.value, ast.Name):
+                return D          # the coupling vector of this trajectory (whatever the dictionary local is called)
+        return None
+    stored = []
+
+    def on_store(t, st, ts):
+        if isinstance(t, ast.Subscript) and norm(t.value) == f"{p_mol}.velocities":
+            stored.append((st, norm(t.slice), ts.ev(st.value)))
+    results = []
+    for body_branch in (True, False):
+        ts = TensorSym({p_dE: dEs, "CONSTANTS.KINETIC_ENERGY_SCALE": KES}, hook, ifexp_body=body_branch)
+        del stored[:]
+        try:
+            ts.run(rv.body, on_store)
+        except AnalysisError as e:
+            raise AnalysisError(f"_rescale_velocity_along_nac not interpretable: {e}")
+        if len(stored) != 1:
+            results.append((None, f"{len(stored)} velocity stores"))
+            continue
+        st_, sl_, Vn = stored[0]
+        results.append((ts, (st_, sl_, Vn)))
+    rng = random.Random(7)
+
+    def sample(neg_dE):
+        vals = {}
+        for x in list(V.flat) + list(D.flat):
+            vals[x] = sp.Rational(rng.randint(-40, 40), 17) or sp.Rational(3, 17)
+        for x in MI.flat:
+            vals[x] = sp.Rational(rng.randint(1, 30), 13)
+        vals[KES] = sp.Rational(rng.randint(1, 30), 7)
+        vals[dEs] = sp.Rational(rng.randint(1, 9), 11) * (-1 if neg_dE else sp.Rational(1, 400))
+        return vals
+    ok_dir = ok_energy = ok_root = ok_target = True
+    detail = ""
+    for ts, res in results:
+        if ts is None:
+            ok_dir = ok_energy = ok_root = ok_target = False
+            detail = res
+            continue
+        st_, sl_, Vn = res
+        ok_target = ok_target and sl_ == p_idx
+        for neg in (True, True, False):
+            vals = sample(neg)
+            f = lambda e: sp.N(sp.sympify(e).subs(vals), 50)
+            dV = (Vn - V)
+            alphas = [f(dV[i, j]) / (f(D[i, j]) * f(MI[i, 0])) for i in range(A) for j in range(C)]
+            if any(abs(x - alphas[0]) > sp.Float("1e-35") for x in alphas):
+                ok_dir, detail = False, f"v' - v is not a single multiple of d/m (ratios {[sp.N(x, 6) for x in alphas[:3]]})"
+                continue
+            al = alphas[0]
+            dK = sum(f(Vn[i, j]) ** 2 - f(V[i, j]) ** 2 for i in range(A) for j in range(C) for _ in [0] if True) * 0
+            dK = sum((f(Vn[i, j]) ** 2 - f(V[i, j]) ** 2) / f(MI[i, 0]) for i in range(A) for j in range(C)) / 2
+            resid = f(KES) * dK + f(dEs)
+            if abs(resid) > sp.Float("1e-30"):
+                ok_energy, detail = False, f"KES*dEkin + dE = {sp.N(resid, 8)} at a random point (alpha = {sp.N(al, 8)})"
+            vd = sum(f(V[i, j]) * f(D[i, j]) for i in range(A) for j in range(C))
+            s2 = sum(f(MI[i, 0]) * f(D[i, j]) ** 2 for i in range(A) for j in range(C))
+            radv = vd ** 2 - 2 * f(dEs) / f(KES) * s2
+            if radv > 0:
+                other = [(-vd + sgn * sp.sqrt(radv)) / s2 for sgn in (1, -1)]
+                small = min(other, key=lambda x: abs(x))
+                if abs(al - small) > sp.Float("1e-30"):
+                    ok_root, detail = False, f"alpha = {sp.N(al, 8)} but the root of smaller magnitude is {sp.N(small, 8)}"
+    ctx.check(ok_dir and ok_target, "R3", nad, rv, "SurfaceHoppingDynamics._rescale_velocity_along_nac", "v' - v = alpha d/m",
+              "v[mol] <- v[mol] + alpha * d / m with one scalar alpha (only along the mass-weighted coupling vector, only this trajectory)",
+              f"velocity update on a hop is not v += alpha*d*mass_inverse for the hopping trajectory only: {detail}")
+    ctx.check(ok_energy, "R3", nad, rv, "SurfaceHoppingDynamics._rescale_velocity_along_nac", "alpha",
+              "KES*(Ekin' - Ekin) + dE == 0 for the stored velocities: total energy conserved exactly by the adjustment (50-digit evaluation at random rational points, both signs of dE)",
+              f"velocity adjustment does not conserve energy: {detail}")
+    ctx.check(ok_root, "R3", nad, rv, "SurfaceHoppingDynamics._rescale_velocity_along_nac", "alpha root",
+              "the root of smaller magnitude is taken (carries sign(v.d))", f"{detail}")
+    # the radicand tested by the frustrated exit
+    ts0 = results[0][0]
+    rad_names = []
+    if ts0 is not None:
+        vd_s = sum(V[i, j] * D[i, j] for i in range(A) for j in range(C))
+        s2_s = sum(MI[i, 0] * D[i, j] ** 2 for i in range(A) for j in range(C))
+        rad_s = vd_s ** 2 - 2 * dEs / KES * s2_s
+        for nm, val in ts0.env.items():
+            try:
+                if not isinstance(val, np.ndarray) and sp.simplify(sp.expand(sp.sympify(val) - rad_s)) == 0:
+                    rad_names.append(nm)
+            except Exception:  # noqa
+                pass
     g = build_cfg(rv)
     muts = []
     for n in g.nodes:
@@ -237,20 +320,6 @@ def run(ctx):
                     for x in tg:
                         if "_active_states" in norm(x):
                             muts.append((n, "_active_states", "assign", t))
-    vel = [m for m in muts if m[1] == "velocities"]
-    ok = len(vel) == 1 and vel[0][2] == "store[]"
-    if ok:
-        node = vel[0][3]
-        ok = norm(node.targets[0]).replace(" ", "") == "molecule.velocities[mol_index]"
-        a_s, d_s, mi, v_s = sp.symbols("alpha d minv v")
-        try:
-            e = to_sympy(node.value, {"alpha": a_s, "dvec": d_s, "m_inv": mi, "molecule.velocities": v_s}, {**torch_funcs(), "[]": lambda n, rec: rec(n.value)})
-            ok = ok and sp.simplify(e - (v_s + a_s * d_s * mi)) == 0
-        except AnalysisError:
-            ok = False
-    ctx.check(ok, "R3", nad, vel[0][3] if vel else rv, "SurfaceHoppingDynamics._rescale_velocity_along_nac", vel[0][3] if vel else rv.name,
-              "v[mol] <- v[mol] + alpha * d / m (only along the mass-weighted coupling vector, only this trajectory)",
-              "velocity update on a hop is not v += alpha*d*mass_inverse for the hopping trajectory only")
     false_rets = [n for n in g.nodes if n.kind == "stmt" and isinstance(n.stmt, ast.Return) and isinstance(n.stmt.value, ast.Constant) and n.stmt.value.value is False]
     true_rets = [n for n in g.nodes if n.kind == "stmt" and isinstance(n.stmt, ast.Return) and isinstance(n.stmt.value, ast.Constant) and n.stmt.value.value is True]
     ctx.check(len(false_rets) >= 2 and len(true_rets) == 1, "R3", nad, rv, "SurfaceHoppingDynamics._rescale_velocity_along_nac", "returns",
@@ -264,8 +333,8 @@ def run(ctx):
     for fr in false_rets:
         ctrl = controlling(nad, fr.stmt)
         t = [(norm(a).replace(" ", ""), p) for a, p, _ in ctrl]
-        if any("rad" in a for a, _ in t):
-            ctx.check(("rad<=0", True) in t or ("rad<0", True) in t, "R3", nad, fr.stmt, "SurfaceHoppingDynamics._rescale_velocity_along_nac", fr.stmt,
+        if any(any(a.startswith(rn + "<") for rn in rad_names) for a, _ in t) or (not rad_names and fr is false_rets[-1]):
+            ctx.check(any((f"{rn}<=0", True) in t or (f"{rn}<0", True) in t for rn in rad_names), "R3", nad, fr.stmt, "SurfaceHoppingDynamics._rescale_velocity_along_nac", fr.stmt,
                       "hop is frustrated exactly when the radicand is not positive", f"frustration test is {t}")
     # call site: dE = E[target] - E[current]; state switched only on success
     au = nad.func("SurfaceHoppingDynamics._after_electronic_update")
